@@ -18,7 +18,7 @@ pub fn run(o: &Opts) {
 
 /// `vary_root`: the root script is dispatched through wasm_sudo or migrate instead of execute
 pub fn run_from(o: &Opts, vary_root: bool) {
-    let root_entry = if vary_root { 1 + choose(2) } else { 0 };
+    let root_entry = if vary_root { 1 + choose(3) } else { 0 };
     let mut w = world(o.max_depth + 1);
     let root = gen_tree(o);
     let mut uids = BTreeMap::new();
@@ -31,7 +31,8 @@ pub fn run_from(o: &Opts, vary_root: bool) {
     let r = catch(|| match root_entry {
         0 => w.app.execute_contract(user, k0, &script, &[]),
         1 => w.app.wasm_sudo(k0, &script),
-        _ => w.app.migrate_contract(user, k0, &script, 1),
+        2 => w.app.migrate_contract(user, k0, &script, 1),
+        _ => w.app.sudo(cw_multi_test::SudoMsg::Wasm(cw_multi_test::WasmSudo { contract_addr: k0, message: script.bin() })),
     });
     if let Err(p) = r {
         failure("no_panic", "panic", p);
